@@ -14,11 +14,13 @@ event = L.event
 def run(ctx):
     quick = ctx.tier == "quick"
     ctx.rule = (
-        "TLC enumerates every token list up to MaxLen over a 25-token adversarial alphabet x 7 small formats, parsing each "
+        "TLC enumerates every token list up to MaxLen over a 27-token adversarial alphabet x 7 small formats, parsing each "
         "strictly then leniently on one parser object in the model (invariants Allowed, LenientTotal, StrictOkImpliesLenientSame); "
         "every emitted outcome is replayed on the real parser (formats built with and without a base format); non-trivial = the "
-        "line contains an option-like token; random soups up to length 6 and single-fault mutations of valid lines are decided by "
-        "ArgsParserTrace"
+        "line contains an option-like token; random soups up to length 6 and eight kinds of single-fault mutations of valid lines "
+        "are decided by ArgsParserTrace; on every observed parse: faults readable off the line alone are rejected in strict mode "
+        "(P.strict.rejects_*; MalformedRejected has TLC confirm the same of the model on every soup) and Command.parse(raw, "
+        "True / False / nothing) on the same format declared through command configurations agrees (P.route.command)"
     )
     ctx.assumptions += [
         "formats: <= 1 command name, <= 2 arguments, <= 2 options, types str/int/bool (float conversion is CPython's)",
